@@ -228,6 +228,9 @@ def check(ctx, rep):
     rule_nonempty_changes(ctx, rep)
     rule_description_nonempty(ctx, rep)
     rule_sast_metadata(ctx, rep)
+    from .c03 import rule_line_unit
+
+    rule_line_unit(ctx, rep)
     from .c10 import rule_no_changeset_on_failure
 
     rule_no_changeset_on_failure(ctx, rep)
